@@ -160,6 +160,17 @@ def w_C14_marker():
     return bad, "; ".join("%s -> solved=%s by %s (%s)" % x for x in res)
 
 
+def w_C14_given_peroxide():
+    b = _balancer()
+    res = []
+    for rx in ("CC(=O)Cl.O.OO>>CC(=O)O.OO", "CC(=O)Cl.O.OO>>OO.CC(=O)O"):
+        r = b.rebalance([rx], output_dict=True)[0]
+        prod = sorted(r["reaction"].split(">>")[1].split("."))
+        res.append((rx, bool(r["solved"]), r.get("solved_by"), r["reaction"], prod))
+    bad = all(x[1] and x[2] == "rule-based" for x in res) and res[0][4] != res[1][4]
+    return bad, "; ".join("%s -> solved=%s by %s (%s)" % x[:4] for x in res)
+
+
 def w_C02_peroxide():
     rx = "CC(=O)Cl.O>>CC(=O)O.OO"
     r = _balancer().rebalance([rx], output_dict=True)[0]
@@ -170,6 +181,7 @@ def w_C02_peroxide():
 
 WITNESSES = {
     "C14-substring-marker-order-sensitive": ("C14", w_C14_marker),
+    "C14-given-marker-molecule-position-sensitive": ("C14", w_C14_given_peroxide),
     "C02-given-peroxide-rewritten": ("C02", w_C02_peroxide),
     "C20-enol-roles-by-index-distance": ("C20", w_C20_enol),
     "C12-cache-key-omits-configuration": ("C12", w_C12_key),
